@@ -1,0 +1,30 @@
+//go:build verif
+
+// Package verifhook provides named observation points used by the external
+// verification harness. With the `verif` build tag, a handler installed by a
+// test is invoked at every point; the handler may record the event and may
+// block the calling goroutine (scheduler gate).
+package verifhook
+
+import "sync/atomic"
+
+// HandlerFn receives the point name and the key/value pairs logged at it.
+type HandlerFn func(point string, kv ...interface{})
+
+var handler atomic.Value // *HandlerFn
+
+// Install sets the handler invoked at every observation point.
+func Install(h HandlerFn) { handler.Store(&h) }
+
+// Uninstall removes the handler.
+func Uninstall() {
+	var none HandlerFn
+	handler.Store(&none)
+}
+
+// At marks an observation point.
+func At(point string, kv ...interface{}) {
+	if p, ok := handler.Load().(*HandlerFn); ok && p != nil && *p != nil {
+		(*p)(point, kv...)
+	}
+}
